@@ -18,7 +18,11 @@ var vrfEntries = map[string]func(){
 
 func VrfC03Allocate() {
 	n := vrf_param("peers")
+	// allocator: 0 ascending, 1 descending (the default for free space), 2 both
 	descend := vrf_param("descend") == 1
+	if vrf_param("descend") == 2 {
+		descend = vrf_choice("descending_allocator", 2) == 1
+	}
 	rmin := vrf_nondet_int("rplmin")
 	rmax := vrf_nondet_int("rplmax")
 	vrf_assume(isReplicationFactorValid(rmin, rmax) == nil) // documented precondition of allocate()
